@@ -40,7 +40,7 @@ OBJECTS = [1, 'text', None, True, 3.5, ('a', 1), ['l', ['nested', {'k': (1, 2)}]
 SENT = object()
 
 
-PRIORS = ['none', 'none', 'set_before', 'deleted_before', 'set_then_deleted', 'other_name_before']
+PRIORS = ['none', 'none', 'set_before', 'deleted_before', 'set_then_deleted', 'other_name_before', 'failed_reset_after']
 
 
 def apply_prior(resp, prior, name):
@@ -63,6 +63,15 @@ def set_and_emit(kind, name, value, secret=None, prior='none', status=200, **opt
     r = HTTPResponse('b') if kind == 'HTTPResponse' else Response()
     apply_prior(r, prior, name)
     r.set_cookie(name, value, secret=secret, **opts)
+    if prior in ('failed_reset_after',):
+        # the application tries to set the same cookie again with an option http.cookies refuses, and carries on: the cookie stays set
+        try:
+            r.set_cookie(name, value, secret=secret, no_such_cookie_attribute='x', **opts)
+            raise AssertionError('harness: the bogus cookie attribute was accepted')
+        except AssertionError:
+            raise
+        except Exception:  # noqa
+            pass
     r.status = status
     if kind == 'copied':
         r = r.copy(cls=HTTPResponse)
@@ -136,6 +145,11 @@ def roundtrip_unit(ctx, unit):
     def h_set():
         apply_prior(app.response, cur['prior'], cur['name'])
         app.response.set_cookie(cur['name'], cur['value'], secret=cur['secret'], path='/', httponly=True)
+        if cur['prior'] == 'failed_reset_after':
+            try:
+                app.response.set_cookie(cur['name'], cur['value'], secret=cur['secret'], path='/', httponly=True, no_such_cookie_attribute='x')
+            except Exception:  # noqa
+                pass
         app.response.status = cur['status']
         return 'set'
 
